@@ -114,13 +114,13 @@ type sgen struct {
 // free draws a free-text string: from plain (realistic values) or, with
 // Opts.Special, a concatenation of 1-3 pieces of the special classes.
 func (g sgen) free(label string, plain []string) string {
-	if !g.opts.Special || rapid.IntRange(0, 99).Draw(g.t, label+"?special") < 50 {
+	if !g.opts.Special || !g.chance(label+"?special", 50) {
 		return Sanitize(rapid.SampledFrom(plain).Draw(g.t, label))
 	}
 	n := rapid.SampledFrom([]int{1, 1, 1, 2, 2, 3}).Draw(g.t, label+"#pieces")
 	var sb strings.Builder
 	for i := 0; i < n; i++ {
-		switch k := rapid.IntRange(0, 11).Draw(g.t, label+"/kind"); {
+		switch k := uniform(g.t, label+"/kind", 12); {
 		case k <= 7:
 			cl := specialClassNames[k]
 			sb.WriteString(rapid.SampledFrom(SpecialClasses[cl]).Draw(g.t, label+"/"+cl))
@@ -149,7 +149,7 @@ var specialNames = []string{"req name", "имя", "r-1", "r.2", `a"b`, `a\b`, "r
 func (g sgen) name(label string, plain []string, used map[string]bool) string {
 	var n string
 	switch {
-	case g.opts.Special && !g.opts.SimpleNames && rapid.IntRange(0, 99).Draw(g.t, label+"?special") < 35:
+	case g.opts.Special && !g.opts.SimpleNames && g.chance(label+"?special", 35):
 		n = rapid.SampledFrom(specialNames).Draw(g.t, label)
 	case rapid.Bool().Draw(g.t, label+"?pool"):
 		n = rapid.SampledFrom(plain).Draw(g.t, label)
